@@ -56,6 +56,7 @@ def suite_padded(ctx):
     lines, impl = [], []
     per = ctx.n(40, 800)
     saved0 = enclib.DIDS.pop(0x0000)
+    declib.LENIENT_IO = True
     try:
         for name, gen in declib.GENERATORS:
             if name not in ('rdbi', 'readmem', 'io', 'rft', 'dtc'):
@@ -121,6 +122,7 @@ def suite_padded(ctx):
                                 s.fail(dict(rec, observed=got, required='invalid (or unexpected) response: trailing bytes with tolerance off'))
     finally:
         enclib.DIDS[0x0000] = saved0
+        declib.LENIENT_IO = False
     core.compare(s, lines, core.drv_batch(lines), impl)
     for i in (0, len(lines) // 2, len(lines) - 1):
         s.sample({'line': lines[i], 'impl': impl[i]})
